@@ -482,6 +482,9 @@ std::vector<Fault> enumerateFaults(const Graph &g)
         }
         for (int k = 1; k <= 2; ++k) {
             for (int ff = 0; ff < 2; ++ff) {
+                if (k == 2 && ff != (j & 1)) {
+                    continue; // length 2: one call order per file (alternating), length 1: both
+                }
                 Fault f;
                 f.type = Fault::UCYC;
                 f.file = j;
@@ -1181,7 +1184,11 @@ ChildResult runIsolated(const std::function<void()> &body)
         return res;
     }
     std::string kind = crashKind(err, status);
-    res.key = "crash:" + kind + "@" + crashFrame(err, kind == "asan:stack-overflow") + ":" + res.lastStage;
+    bool overflow = kind == "asan:stack-overflow";
+    std::string frame = crashFrame(err, overflow);
+    // Stack exhaustion: the report is cut wherever the stack happened to end, so the frame goes to the detail only;
+    // the stage (operation, fault class, position of the failing import) identifies the situation.
+    res.key = "crash:" + kind + (overflow ? "" : "@" + frame) + ":" + res.lastStage;
     // head of the report without the (hundreds of) repeated frames
     std::string head;
     int lines = 0;
@@ -1200,7 +1207,7 @@ ChildResult runIsolated(const std::function<void()> &body)
         head += line.substr(0, 300) + "\n";
         ++lines;
     }
-    res.report = "child ended abnormally (status " + std::to_string(status) + ") at stage " + res.lastStage + "\n" + head;
+    res.report = "child ended abnormally (status " + std::to_string(status) + ") at stage " + res.lastStage + (overflow ? "; recursing function: " + frame : "") + "\n" + head;
     return res;
 }
 
@@ -1343,7 +1350,21 @@ struct LinkWalk
                 walk(0, static_cast<int>(e), root);
             }
         }
-        return has ? found : "all-linked";
+        if (has) {
+            return found;
+        }
+        // every import is linked to a model: name the first top-level entity that nevertheless tests as unresolved
+        for (size_t i = 0; i < root->unitsCount(); ++i) {
+            if (!root->units(i)->isResolved()) {
+                return std::string("all-linked/") + (root->units(i)->isImport() ? "imported-units" : "local-units-over-imports");
+            }
+        }
+        for (size_t i = 0; i < root->componentCount(); ++i) {
+            if (!root->component(i)->isResolved()) {
+                return std::string("all-linked/") + (root->component(i)->isImport() ? "imported-component" : "local-component");
+            }
+        }
+        return "all-linked";
     }
 };
 
@@ -1695,8 +1716,8 @@ uint64_t gcd64(uint64_t a, uint64_t b)
     return a;
 }
 
-constexpr int64_t kQuickFamily = 9000;
-constexpr int64_t kQuickRandom = 5000;
+constexpr int64_t kQuickFamily = 6500;
+constexpr int64_t kQuickRandom = 3500;
 constexpr int64_t kThoroughRandom = 60000;
 
 } // namespace
